@@ -428,6 +428,39 @@ def rows(S):
     return out
 
 
+def eval_row(chk, S, r1, row):
+    """Evaluate one row of the guard table under rule ``r1``; returns True / False / None."""
+    it = S.interp()
+    detail = ""
+    try:
+        row.run(it)
+        raised = None
+    except RaiseSignal as e:
+        raised = e
+    except AnalysisError as e:
+        raised = None
+        detail = f"(analysis stopped after the guards: {str(e)[:120]})"
+    S.absorb(it)
+    if row.mode == "raise":
+        ok = raised is not None and getattr(raised.exc, "cls_name", "") == row.exc
+        r1.require(ok, row.id, f"raises {row.exc}", f"expected {row.exc}; got {'no exception' if raised is None else raised.exc} {detail}", raised.site if raised else None)
+        return ok
+    if raised is not None:
+        ok = getattr(raised.exc, "cls_name", "") == row.exc
+        r1.require(ok, row.id, f"raises {row.exc} unconditionally for this corruption", f"expected a {row.exc} guard; the run raises {raised.exc}", raised.site)
+        return ok
+    gs = guards_on(it, row)
+    ok = bool(gs)
+    if not ok and detail:
+        ok = None
+    passed = [(g["exc"], T.show(g["cond"], 2)) for g in it.cur_guards][:6]
+    r1.require(ok, row.id, f"{row.exc} guard at {gs[0]['site'] if gs else '?'} on every returning path {detail}",
+               f"no {row.exc} guard depending on {row.bad} lies on every returning path; guards passed on all paths: {passed} {detail}", gs[0]["site"] if gs else None)
+    if len(chk.samples) < 6 and gs:
+        chk.sample({"row": row.id, "guard": T.show(gs[0]["cond"], 4), "site": gs[0]["site"], "exception": row.exc})
+    return ok
+
+
 def run(chk, S: Session):
     chk.trust("tree.tree_structure / tree.tree_all / np.shape / isinstance / np.ndim as named")
     r1 = chk.rule("R-C20-1", "guard table: a raise-guard of the listed type depending on the corrupted value lies on every returning path (or the configuration raises)", floor=100)
@@ -436,37 +469,7 @@ def run(chk, S: Session):
     table = rows(S)
     results = {}
     for row in table:
-        it = S.interp()
-        status, detail, where = None, "", None
-        try:
-            row.run(it)
-            raised = None
-        except RaiseSignal as e:
-            raised = e
-        except AnalysisError as e:
-            raised = None
-            detail = f"(analysis stopped after the guards: {str(e)[:120]})"
-        S.absorb(it)
-        if row.mode == "raise":
-            ok = raised is not None and getattr(raised.exc, "cls_name", "") == row.exc
-            r1.require(ok, row.id, f"raises {row.exc}", f"expected {row.exc}; got {'no exception' if raised is None else raised.exc} {detail}", raised.site if raised else None)
-            results[row.id] = ok
-            continue
-        if raised is not None:
-            ok = getattr(raised.exc, "cls_name", "") == row.exc
-            r1.require(ok, row.id, f"raises {row.exc} unconditionally for this corruption", f"expected a {row.exc} guard; the run raises {raised.exc}", raised.site)
-            results[row.id] = ok
-            continue
-        gs = guards_on(it, row)
-        ok = bool(gs)
-        if not ok and detail:
-            ok = None
-        passed = [(g["exc"], T.show(g["cond"], 2)) for g in it.cur_guards][:6]
-        r1.require(ok, row.id, f"{row.exc} guard at {gs[0]['site'] if gs else '?'} on every returning path {detail}",
-                   f"no {row.exc} guard depending on {row.bad} lies on every returning path; guards passed on all paths: {passed} {detail}", gs[0]["site"] if gs else None)
-        results[row.id] = ok
-        if len(chk.samples) < 6 and gs:
-            chk.sample({"row": row.id, "guard": T.show(gs[0]["cond"], 4), "site": gs[0]["site"], "exception": row.exc})
+        results[row.id] = eval_row(chk, S, r1, row)
     # sibling agreement
     groups = {}
     for row in table:
